@@ -54,6 +54,12 @@ def one(d, extra):
 
 def main():
     only, jobs, extra = None, 6, {}
+    if os.path.exists("/verif/tools/extras.txt"):
+        for l in open("/verif/tools/extras.txt"):
+            l = l.strip()
+            if l and not l.startswith("#"):
+                k, v = l.split("=")
+                extra.setdefault(k, []).extend(v.split(","))
     a = sys.argv[1:]
     while a:
         if a[0] == "--only":
@@ -61,7 +67,7 @@ def main():
         elif a[0] == "--jobs":
             jobs = int(a[1]); a = a[2:]
         elif a[0] == "--extra":
-            k, v = a[1].split("="); extra[k] = v.split(","); a = a[2:]
+            k, v = a[1].split("="); extra.setdefault(k, []).extend(v.split(",")); a = a[2:]
         else:
             print(__doc__); sys.exit(2)
     rc, o = sh("./check.sh C12 quick", "/verif")  # makes sure bin/gedcheck is current
